@@ -135,6 +135,31 @@ def run_case(case):
             v.check(bool(c.triggered(require_mc_truth=True)) == mc, "default trigger by Monte-Carlo truth <=> some antenna is hit by Monte-Carlo truth", how=how, n_hit=len(hits), mc=mc)
             c.clear()
             v.check(not any(len(a.signals) for a in want) and not c.triggered(), "clear clears every antenna", how=how)
+        # ---- measured once, then rebuilt / extended underneath, then measured again: len / index / iteration stay in step
+        for how, c in combos[:2]:
+            if how == "0+":
+                continue
+            _ = len(c), (c[0] if len(c) else None)
+            for dd in dets:
+                if isinstance(dd, Detector):
+                    dd.build_antennas(Antenna, noisy=False)            # rebuild: every antenna object is replaced
+            live = list(c)
+            v.check(len(c) == len(live) and all(c[i] is live[i] for i in range(len(live))) and (not live or c[-1] is live[-1]),
+                    "after rebuilding sub-detectors len / index / iteration of the enclosing detector agree", how=how, len=len(c), iterated=len(live))
+            want2 = []
+            for dd in dets:
+                if isinstance(dd, (Antenna, AntennaSystem)):
+                    want2.append(dd)
+                else:
+                    want2.extend(list(dd))
+            v.check([id(a) for a in live] == [id(a) for a in want2], "after rebuilding, the enclosing detector visits the newly built antennas", how=how)
+            inner = next((dd for dd in c.subsets if isinstance(dd, CombinedDetector)), None) if hasattr(c, "subsets") else None
+            if inner is not None:
+                extra = Antenna((77, 0, -9), noisy=False)
+                n_before = len(c)
+                inner += extra
+                v.check(len(c) == n_before + 1 and extra in list(c) and any(c[i] is extra for i in range(len(c))),
+                        "extending a nested combined detector is seen by the enclosing detector's len / index / iteration", how=how, len=len(c), before=n_before)
         sample = {"operands": [type(x).__name__ if not isinstance(x, list) else "list[%d]" % len(x) for x in dets], "antennas": len(flat), "combinations": [h for h, _ in combos]}
         return v.result(decided=True, nontrivial=len(flat) >= 3 and len(combos) > 0, sample=sample)
 
